@@ -84,10 +84,22 @@ func execWin(args []string) string {
 		bits, _ := strconv.Atoi(args[0])
 		size = 1 << bits
 		// exercise both initialisation paths; they must be indistinguishable
-		w = gws.VerifNewWindow(bits, len(args[1])%2 == 0)
+		w = gws.VerifNewWindow(bits, len(args[1])%2 == 0 || strings.Contains(args[1], "R"))
 	}
 	var outs []string
-	for _, p := range unhxList(args[1]) {
+	items := []string{}
+	if args[1] != "." {
+		items = strings.Split(args[1], ",")
+	}
+	for _, it := range items {
+		if it == "R" {
+			if args[0] != "off" {
+				w.Recycle()
+			}
+			outs = append(outs, hx(w.Bytes()))
+			continue
+		}
+		p := unhx(it)
 		q := append([]byte(nil), p...)
 		n, err := w.Write(q)
 		if args[0] == "off" {
@@ -171,6 +183,23 @@ func genWin(g *Gen) {
 			}
 		}
 		g.Emit("win %d %s", bits, hxList(chunks))
+	}
+	// recycling through the pool between connections: the next window must start empty
+	for bits := 0; bits <= 4; bits++ {
+		size := 1 << bits
+		for _, n1 := range []int{0, 1, size - 1, size, size + 1, 2*size + 3} {
+			if n1 < 0 {
+				continue
+			}
+			for _, n2 := range []int{0, 1, size} {
+				counter = 1
+				g.Emit("win %d %s,R,%s,R", bits, hx(fresh(n1)), hx(fresh(n2)))
+			}
+		}
+	}
+	for i := 0; i < g.pick(30, 300); i++ {
+		bits := 8 + g.R.Intn(8)
+		g.Emit("win %d %s,R,%s,%s,R,%s", bits, hx(g.R.Bytes(g.R.Intn(3<<bits))), hx(g.R.Bytes(g.R.Intn(100))), hx(g.R.Bytes(g.R.Intn(2<<bits))), hx(g.R.Bytes(g.R.Intn(50))))
 	}
 	g.Emit("win off %s", hxList([][]byte{{1, 2, 3}, {}, fresh(100)}))
 	g.Emit("win off .")
